@@ -208,4 +208,34 @@ def jobs(tier):
     dn("dnf.witness.cancel_writes_past_term", "h_dnf_witness_cancel_overflow", ["dnfOr", "dnfAnd", "dnfOrMerge", "dnfAndCancelNegation"], [])
     dn("canary.dnf.or", "h_dnf_or", ["dnfOr"], XY, 1, 1, kind="canary", extra=["-DCANARY_dnf_or"])
     dn("canary.dnf.implies", "h_dnf_implies", ["dnfImplies"], XY, 1, 1, kind="canary", extra=["-DCANARY_dnf_implies"])
+
+    # ------------------------------------------------------------------ btree.c (bounded; t = 2)
+    BT = "btree_h.c"
+    BCHK = ["--no-standard-checks", "--no-malloc-may-fail", "--pointer-check", "--div-by-zero-check"]   # struct-hack part[]
+    BIN = ["keys", "ents", "cnts", "gk", "ge"]
+
+    def bt(name, entry, fns, ins, h, kind="obligation", extra=(), timeout=None):
+        us = ["h_alloc.0:6", "bt_guards_intact.0:%d" % (1 + 4 + 16 + h + 4), "%s.0:%d" % (entry, 3 * 21 + 2), "%s.1:%d" % (entry, 23),
+              "bt_count:%d" % (h + 2), "bt_wf:%d" % (h + 2), "bt_arbitrary:4", "btreeCheck0:%d" % (h + 1), "btreeDelete0:%d" % h,
+              "btreeInsertX.1:%d" % (h + 2), "btreeSearchMax.0:%d" % (h + 1), "btreeSearchMin.0:%d" % (h + 1),
+              "btreeSearchEQ.1:%d" % (h + 1), "btreeSearchGE.1:%d" % (h + 1)]
+        J(name, BT, entry, fns, BIN + ins, cls="B", kind=kind, native=True, checks=BCHK,
+          bound="t=2, any well-formed tree of height %d (<=%d keys)" % (h, {1: 3, 2: 15, 3: 63}[h]),
+          defs=["-DBT_T=2", "-DBT_H=%d" % h] + list(extra), cbmc=["--unwindset", ",".join(us), "--unwind", "5", "--unwinding-assertions"],
+          timeout=timeout or (1800 if thorough else 120))
+    SRCH = ["btreeSearchEQ", "btreeSearchGE", "btreeSearchMin", "btreeSearchMax"]
+    bt("btree.new", "h_bt_new", ["btreeNewX", "btreeCheck"] + SRCH[:2], [], 1)
+    bt("btree.search.h1", "h_bt_search", SRCH, ["k"], 1)
+    bt("btree.check.h1", "h_bt_check", ["btreeCheck", "btreeCheck0"], [], 1)
+    bt("canary.btree.search", "h_bt_search", SRCH, ["k"], 1, kind="canary", extra=["-DCANARY_bt_search"])
+    if thorough:
+        # minutes per job even for a single leaf (the unit walks nodes by pointer and recurses without a leaf test on
+        # the key-absent path, which the verifier must explore): not in the quick tier
+        bt("btree.delete.h1", "h_bt_delete", ["btreeDeleteX", "btreeDelete0"], ["k"], 1)
+        bt("btree.insert.h1", "h_bt_insert", ["btreeInsertX", "btreeSplitChild"], ["k", "e"], 1)
+        bt("canary.btree.delete", "h_bt_delete", ["btreeDeleteX"], ["k"], 1, kind="canary", extra=["-DCANARY_bt_delete"])
+        bt("btree.search.h2", "h_bt_search", SRCH, ["k"], 2)
+        bt("btree.check.h2", "h_bt_check", ["btreeCheck", "btreeCheck0"], [], 2)
+        bt("btree.delete.h2", "h_bt_delete", ["btreeDeleteX", "btreeDelete0", "btreeUnsplitChild", "btreeRotateUp", "btreeRotateDown"], ["k"], 2, timeout=3600)
+        bt("btree.insert.h2", "h_bt_insert", ["btreeInsertX", "btreeSplitChild"], ["k", "e"], 2, timeout=3600)
     return js
